@@ -350,6 +350,22 @@ def runVq2 (ws : List String) : String :=
   | ["backlog", k, n] => match n.toNat? with
     | some n => if n ≤ 100000 then runVqBacklog k n else "bad-case"
     | none => "bad-case"
+  | ["early", r] =>
+    -- timers of several durations; in the model (logical time, 1 unit = 1 us) a receive whose clock
+    -- reading is before the deadline does not return the timer, one at the deadline does
+    match r.toNat? with
+    | some r =>
+      if r = 0 ∨ r > 100000 then "bad-case"
+      else
+        open Mio.EvQ in
+        let durs := [900, 500, 750, 7000, 12000, 3000, 1500, 250]
+        let early := (durs.filter fun d =>
+          let q : Q Nat := (sendTimer {} 0 d 1).2
+          let before := (tryReceive (d - 1) q).1
+          let atDl := (tryReceive d q).1
+          !(before == none && atDl == some 1)).length
+        s!"early={early}"
+    | none => "bad-case"
   | ["collide", t, r] =>
     -- several threads call `send_with_timer` at the same instant: in the model the clock read, the
     -- sequence number and the enqueue of one call are one atomic step (`fetch_add`), so this is the
